@@ -572,7 +572,11 @@ func Check() *core.Check {
 			if tier == "thorough" {
 				fams = append(fams, condFamily("depth1-if", gen.Ternary, lv, 3), depth2Family(lv[:9]), ifValueFamily(lv))
 			} else {
-				fams = append(fams, condFamily("depth1-if", gen.Ternary, lv[:8], 3), depth2Family([]*Expr{lv[0], lv[2], lv[4], lv[7], lv[8], lv[9]}), ifValueFamily([]*Expr{lv[0], lv[2], lv[3], lv[4], lv[7], lv[12]}))
+				// sub-alphabets of the quick tier, named rather than indexed (an inserted leaf must not shift them)
+				ctxA, ctxRB, ctx, ctxS, prin := Access(Var("context"), "a"), Access(Access(Var("context"), "r"), "b"), Var("context"), Access(Var("context"), "s"), Var("principal")
+				one, str, tru := L(Long(1)), L(Str("s")), L(Bool(true))
+				recLit := L(Rec(KV{"a", Long(1)}, KV{"r", Rec(KV{"b", Long(1)})}, KV{"s", Set(Long(1), Long(2))}))
+				fams = append(fams, condFamily("depth1-if", gen.Ternary, lv[:8], 3), depth2Family([]*Expr{ctxA, ctx, prin, one, str, tru}), ifValueFamily([]*Expr{ctxA, ctxRB, ctx, ctxS, prin, one, recLit}))
 			}
 			return fams
 		},
